@@ -4,4 +4,11 @@ go 1.23.0
 
 require github.com/issue9/mux/v9 v9.0.0
 
+require (
+	github.com/issue9/assert/v4 v4.3.1 // indirect
+	github.com/issue9/errwrap v0.3.2 // indirect
+	github.com/issue9/source v0.12.5 // indirect
+	golang.org/x/mod v0.24.0 // indirect
+)
+
 replace github.com/issue9/mux/v9 => /repo
